@@ -750,6 +750,66 @@ def _cycle_shapes_failures():
     return fails, n
 
 
+def _whichdo_failures():
+    """Bounded: the candidate list of redo-whichdo and the script arguments, on the real binaries, against an independent
+    reference -- for names the proof does not cover (non-ASCII: the proofs about DefaultDoFiles require ASCII) and odd ASCII
+    ones: 14 names x 3 directories.  (a) `redo-whichdo <dir>/<name>` in a project without any .do file lists exactly
+    <name>.do, then default<ext>.do from the longest extension to the shortest and default.do in the target's directory and
+    in every ancestor up to the root; (b) with a default<shortest ext>.do at the top, `redo <dir>/<name>` runs it with
+    $1 = <dir>/<name>, $2 = $1 without that extension.  -> (failures, n) or None"""
+    bindir = build_redo_bin()
+    if not bindir:
+        return None
+    env = {k: v for k, v in os.environ.items() if not k.startswith('REDO') and k != 'MAKEFLAGS'}
+    env['PATH'] = bindir + ':' + env.get('PATH', '')
+    work = tempfile.mkdtemp(prefix='redo-verif-wd.', dir='/var/tmp')
+    fails, n = [], 0
+    names = ['a.b.c', 'noext', '.hidden', 'a..b', 'a.b.', '\u00e9a.b', '\u00f1.tar.gz', 'a\u00e9.b', 'x.\u00e9', '\u65e5\u672c.\u8a9e.txt', '\u00fc', 'a.\u00e9\u00e9.c', '\U0001f600.o', 'k\u0308.d.e']
+    try:
+        proj = os.path.join(os.path.realpath(work), 'p')
+        depth = len([c for c in proj.split('/') if c])
+        for d in ('', 'sub', 'sub/deep'):
+            os.makedirs(os.path.join(proj, d), exist_ok=True)
+        for name in names:
+            dots = [i for i, ch in enumerate(name) if ch == '.']
+            exts = [name[i:] for i in dots]
+            for d in ('', 'sub', 'sub/deep'):
+                n += 1
+                dparts = [c for c in d.split('/') if c]
+                want = ['/'.join(dparts + [name + '.do'])]
+                for level in range(len(dparts), -1, -1):
+                    pre = dparts[:level]
+                    want += ['/'.join(pre + ['default%s.do' % e]) for e in exts] + ['/'.join(pre + ['default.do'])]
+                for k in range(1, depth + 1):
+                    want += ['../' * k + 'default%s.do' % e for e in exts] + ['../' * k + 'default.do']
+                t = '/'.join(dparts + [name])
+                r = subprocess.run(['redo-whichdo', t], cwd=proj, env=env, capture_output=True, text=True, timeout=60)
+                got = [l for l in r.stdout.split('\n') if l]
+                if got != want:
+                    k0 = next((i for i in range(min(len(got), len(want))) if got[i] != want[i]), min(len(got), len(want)))
+                    fails.append(dict(input='redo-whichdo %s (no .do file anywhere)' % t, label='whichdo.lists_up_to_first_existing',
+                                      observed='exit %d; candidate %d is %r, expected %r (%d listed, %d expected)%s' % (r.returncode, k0, got[k0] if k0 < len(got) else None, want[k0] if k0 < len(want) else None, len(got), len(want), ('; stderr: ' + r.stderr.strip()[-160:]) if r.returncode not in (0, 1) else ''),
+                                      clause='redo-whichdo lists <name>.do, then default<ext>.do from the longest extension to the shortest and default.do, directory by directory up to the root'))
+                if exts and dots[-1] > 0:
+                    e = exts[-1]
+                    dofile = os.path.join(proj, 'default%s.do' % e)
+                    open(dofile, 'w').write('printf "%s|%s\\n" "$1" "$2" >"$3"\n')
+                    r = subprocess.run(['redo', '--no-log', t], cwd=proj, env=env, capture_output=True, text=True, timeout=60)
+                    got2 = open(os.path.join(proj, t)).read().strip() if os.path.exists(os.path.join(proj, t)) else None
+                    want2 = '%s|%s' % (t, t[:len(t) - len(e)])
+                    if r.returncode != 0 or got2 != want2:
+                        fails.append(dict(input='default%s.do at the top; redo %s' % (e, t), label='args.dollar2',
+                                          observed='exit %d; $1|$2 seen: %r, expected %r; %s' % (r.returncode, got2, want2, r.stderr.strip()[-160:]),
+                                          clause='the script runs with $1 = the target relative to its directory and $2 = $1 without the matched extension'))
+                    os.unlink(dofile)
+                    if os.path.exists(os.path.join(proj, t)):
+                        os.unlink(os.path.join(proj, t))
+                    shutil.rmtree(os.path.join(proj, '.redo'), ignore_errors=True)
+    finally:
+        shutil.rmtree(work, ignore_errors=True)
+    return fails, n
+
+
 def _corpus_failures(prop):
     """Bounded: the demonstration scripts of the seeded changes kept for this property (seeded/<id>/demo/demo.sh, listed in
     seeded/corpus.json with the clause each one checks).  Each is a concrete history with the real binaries that exits 0
@@ -919,6 +979,16 @@ def conformance(prop, unit_names, pins_changed, labels_props):
             out.append(dict(oid='gluebins/ifchange_build/ifchange.every_argument_goes_through_the_builder', msg='clause fails on the real binaries for a concrete history (bounded probe cycle-shapes, %d histories)' % r[1],
                             where=REPO + '/src/bin/redo/ifchange.rs:run', site=None, text=hits[0]['clause'], rendered=json.dumps(hits[:6], indent=1), inputs=[h['input'] for h in hits],
                             fn='ifchange_build', label='ifchange.every_argument_goes_through_the_builder', props=['C12']))
+    if 'dofiles' in unit_names and prop == 'C13':
+        r = _whichdo_failures()
+        by = {}
+        for h in (r[0] if r else []):
+            by.setdefault(h['label'], []).append(h)
+        for label, hits in by.items():
+            fn_ = 'whichdo_list' if label.startswith('whichdo') else 'start_self_arguments'
+            out.append(dict(oid='dofiles/%s/%s' % (fn_, label), msg='clause fails on the real binaries for a concrete input (bounded probe whichdo, %d inputs)' % r[1],
+                            where=REPO + '/src/paths.rs', site=None, text=hits[0]['clause'], rendered=json.dumps(hits[:6], indent=1, ensure_ascii=False), inputs=[h['input'] for h in hits],
+                            fn=fn_, label=label, props=['C13']))
     if 'dofiles' in unit_names and prop in ('C05', 'C13'):
         r = _shell_line_failures()
         by = {}
@@ -1008,6 +1078,25 @@ def bounded(prop, unit_names, labels_props):
                 out.append(dict(oid='trusted/File::from_name/one_record_one_name_per_file', msg='clause fails on the real binaries for a concrete history (bounded probe names)',
                                 where=REPO + '/src/state.rs:File::from_name', site=None, text=hits[0]['clause'], rendered=json.dumps(hits[:6], indent=1),
                                 inputs=[h['input'] for h in hits], fn='from_name', label='one_record_one_name_per_file', props=[prop]))
+    if prop == 'C13' and 'dofiles' in unit_names:
+        # the stated stand-in for names outside the proof's ASCII precondition (DESIGN section 12): every run
+        try:
+            r = _whichdo_failures()
+        except Exception as e:
+            r = None
+            notes.append('bounded probe whichdo: failed to run (%s)' % e)
+        if r is None:
+            notes.append('bounded probe whichdo: could not be built or run (nothing concluded from it)')
+        else:
+            notes.append('bounded probe whichdo: %d inputs on the real binaries (14 names incl. non-ASCII ones x 3 directories: candidate list of redo-whichdo and $1 $2 against an independent reference), %d failure(s) [bounded, not counted as proved]' % (r[1], len(r[0])))
+            by = {}
+            for h in r[0]:
+                by.setdefault(h['label'], []).append(h)
+            for label, hits in by.items():
+                fn_ = 'whichdo_list' if label.startswith('whichdo') else 'start_self_arguments'
+                out.append(dict(oid='dofiles/%s/%s' % (fn_, label), msg='clause fails on the real binaries for a concrete input (bounded probe whichdo)',
+                                where=REPO + '/src/paths.rs', site=None, text=hits[0]['clause'], rendered=json.dumps(hits[:6], indent=1, ensure_ascii=False), inputs=[h['input'] for h in hits],
+                                fn=fn_, label=label, props=['C13']))
     for unit, probe_, fn_, where in PROBED:
         if unit not in BOUNDED.get(prop, ()) or unit not in unit_names:
             continue
